@@ -376,8 +376,8 @@ func (g *G) reslice(t *ty.Ty, v *ty.Val, n, spare, off int) (*ty.Val, bool) {
 func (g *G) withNaNKeys(t *ty.Ty, v *ty.Val) (*ty.Val, bool) { return g.withNaNKeysN(t, v, 1, 1) }
 
 // withNaNKeysN adds n entries under NaN keys of the payloads base, base+1, … (quiet NaNs; different bit patterns, so
-// that the canonical form of a map, which is sorted by the bits of the keys, stays unambiguous); the values are the
-// first n pool values of the element type, i.e. different ones where the pool has them.
+// that the canonical form of a map, which is sorted by the bits of the keys, stays unambiguous) to every map keyed by
+// a float or complex type; the values alternate between the end and the start of the element type's pool.
 func (g *G) withNaNKeysN(t *ty.Ty, v *ty.Val, n int, base uint64) (*ty.Val, bool) {
 	u := g.env.Under(t)
 	c := *v
@@ -411,17 +411,28 @@ func (g *G) withNaNKeysN(t *ty.Ty, v *ty.Val, n int, base uint64) (*ty.Val, bool
 				sub(i, u.Elem)
 			}
 		}
-		if ku := g.env.Under(u.Key); ku.K == ty.Basic && (ku.B == "float64" || ku.B == "float32") {
+		if ku := g.env.Under(u.Key); ku.K == ty.Basic && (ku.B == "float64" || ku.B == "float32" || ku.B == "complex128" || ku.B == "complex64") {
 			w, bits := 64, uint64(0x7ff8000000000000)
-			if ku.B == "float32" {
+			if ku.B == "float32" || ku.B == "complex64" {
 				w, bits = 32, 0x7fc00000
 			}
 			if v.K != ty.VMap {
 				c = ty.Val{K: ty.VMap}
 			}
+			// the values: the LAST pool value of the element type first (a non-nil pointer, a non-empty slice or map: a
+			// copy that is allocated under the key and filled through a second look-up loses exactly these), then the
+			// first one (nil for pointers, slices and maps), then the last but one
 			ep := g.vg.Pool(u.Elem)
 			for j := 0; j < n; j++ {
-				c.Elems = append(c.Elems, &ty.Val{K: ty.VFlt, W: w, Bits: bits + base + uint64(j)}, ep[j%len(ep)])
+				val := ep[len(ep)-1-(j/2)%len(ep)]
+				if j%2 == 1 {
+					val = ep[(j/2)%len(ep)]
+				}
+				key := &ty.Val{K: ty.VFlt, W: w, Bits: bits + base + uint64(j)}
+				if strings.HasPrefix(ku.B, "complex") {
+					key = &ty.Val{K: ty.VCplx, W: w, Bits: bits + base + uint64(j), Bits2: 0} // NaN real part, +0 imaginary part
+				}
+				c.Elems = append(c.Elems, key, val)
 			}
 			changed = true
 		}
@@ -590,7 +601,7 @@ func (g *G) emitDeepCopy() {
 		}
 		// a source whose float-keyed maps hold a NaN key: the entry copied under it can never be looked up again
 		// (two NaN keys of different payloads, holding different values where the pool of the element type has two)
-		if nv, changed := g.withNaNKeysN(g.t, a, 2, 1); changed && a.K != ty.VNil {
+		if nv, changed := g.withNaNKeysN(g.t, a, 3, 1); changed && a.K != ty.VNil {
 			nsrc := g.vg.Inst(nv)
 			ps := g.priors(nsrc)
 			for k, d := range ps {
@@ -636,8 +647,8 @@ func (g *G) emitDeepCopy() {
 				}
 				g.cop("deepcopyx", g.tn, g.vg.Inst(a).Wire(), g.vg.Inst(b).Wire())
 				g.stats["c05:deepcopyx-populated-prior"]++
-				if na, changed := g.withNaNKeysN(g.t, a, 2, 1); changed && n == 0 {
-					nb, _ := g.withNaNKeysN(g.t, b, 1, 3)
+				if na, changed := g.withNaNKeysN(g.t, a, 3, 1); changed && n == 0 {
+					nb, _ := g.withNaNKeysN(g.t, b, 1, 7)
 					g.cop("deepcopyx", g.tn, g.vg.Inst(na).Wire(), g.vg.Inst(nb).Wire())
 					g.stats["c05:deepcopyx-populated-prior"]++
 					g.stats["c05:deepcopyx-populated-prior-nan-keys"]++
@@ -687,7 +698,7 @@ func (g *G) emitClone() {
 	g.creg("clone", 1, body)
 	for _, a := range g.pool {
 		g.cop("clone", g.tn, g.vg.Inst(a).Wire())
-		if nv, changed := g.withNaNKeysN(g.t, a, 2, 1); changed {
+		if nv, changed := g.withNaNKeysN(g.t, a, 3, 1); changed {
 			g.cop("clone", g.tn, g.vg.Inst(nv).Wire())
 			g.stats["c05:clone-nan-key-source"]++
 		}
